@@ -251,3 +251,17 @@ CHECKS["C16"] = {
         {"pkg": "mboxprop", "run": "TestC16PartialRapid", "checks": (2000, 40000), "shards": (1, 8), "timeout": (900, 3600)},
     ],
 }
+
+CHECKS["C15"] = {
+    "level": "exploration",
+    "rule": ("rapid-generated write-size sequences (1-10 writes; 0, 1, 2, 17, ..300, ..5000, 32767/32768/32769, 65535; beyond 65535 up to 300 KiB on the TCP variant; 65536/70000 on the gRPC variant to test rejection) and read-buffer-size sequences "
+             "(1, 2, 3, 7, 64, 1000, 32767, 32768, 32769, 65535, 65536, 70000, cycled) for NoiseGrpcConn (real Client/ServerHandshake over an in-memory ProxyConn), NoiseConn (hook constructor over an in-memory conn) and the plain mailbox conn "
+             "(mailbox.NewClientConn/NewServerConn over gbn over the in-memory relay, virtual time), both directions, XX and KK. Oracle: every Read returns 0 <= n <= len(buf), never touches memory beyond the buffer, returns no error while the peer is open, "
+             "and the concatenation read equals the concatenation written; Write returns len(b), nil, or (gRPC, > 65535) 0 and ErrMaxMessageLengthExceeded with nothing delivered. Non-trivial: some read buffer was smaller than the largest write; distinct by case."),
+    "assumptions": ["the mailbox variant is relative to the in-memory relay model"],
+    "units": [
+        {"pkg": "mboxprop", "run": "TestC15Grpc", "checks": (1500, 20000), "shards": (1, 4), "timeout": (900, 3600)},
+        {"pkg": "mboxprop", "run": "TestC15TCP", "checks": (1500, 20000), "shards": (1, 4), "timeout": (900, 3600)},
+        {"pkg": "mboxprop", "run": "TestC15Mailbox", "checks": (1200, 15000), "shards": (1, 8), "timeout": (900, 3600)},
+    ],
+}
